@@ -132,13 +132,14 @@ func (v *Version) Compare(other *Version) int {
 }
 
 // compareRPMVersionString compares two RPM version strings using RPM's rules
-// This implements RPM's version comparison algorithm which alternates between
-// comparing non-numeric and numeric segments
+// This implements RPM's rpmvercmp algorithm: the strings are read as maximal
+// runs of letters or of digits; everything else only separates runs, except
+// tilde (sorts before everything) and caret (sorts after the end of the string)
 func compareRPMVersionString(a, b string) int {
 	i, j := 0, 0
 
 	for i < len(a) || j < len(b) {
-		// Skip separators (. + - ~ ^)
+		// Skip separators
 		for i < len(a) && isSeparator(rune(a[i])) {
 			i++
 		}
@@ -146,52 +147,98 @@ func compareRPMVersionString(a, b string) int {
 			j++
 		}
 
-		// Extract non-digit segments
-		iStart := i
-		for i < len(a) && !unicode.IsDigit(rune(a[i])) && !isSeparator(rune(a[i])) {
+		// Tilde sorts before everything, including the end of the string
+		aTilde := i < len(a) && a[i] == '~'
+		bTilde := j < len(b) && b[j] == '~'
+		if aTilde || bTilde {
+			if !aTilde {
+				return 1
+			}
+			if !bTilde {
+				return -1
+			}
 			i++
-		}
-		aNonDigit := a[iStart:i]
-
-		jStart := j
-		for j < len(b) && !unicode.IsDigit(rune(b[j])) && !isSeparator(rune(b[j])) {
 			j++
-		}
-		bNonDigit := b[jStart:j]
-
-		// Compare non-digit segments lexicographically
-		// Special case: tilde (~) sorts before anything (including empty string)
-		nonDigitCmp := compareRPMNonDigits(aNonDigit, bNonDigit)
-		if nonDigitCmp != 0 {
-			return nonDigitCmp
+			continue
 		}
 
-		// Extract digit segments
-		iStart = i
-		for i < len(a) && unicode.IsDigit(rune(a[i])) {
+		// Caret sorts after the end of the string but before any further segment
+		aCaret := i < len(a) && a[i] == '^'
+		bCaret := j < len(b) && b[j] == '^'
+		if aCaret || bCaret {
+			if i >= len(a) {
+				return -1
+			}
+			if j >= len(b) {
+				return 1
+			}
+			if !aCaret {
+				return 1
+			}
+			if !bCaret {
+				return -1
+			}
 			i++
-		}
-		aDigit := a[iStart:i]
-
-		jStart = j
-		for j < len(b) && unicode.IsDigit(rune(b[j])) {
 			j++
+			continue
 		}
-		bDigit := b[jStart:j]
 
-		// Compare digit segments numerically
-		digitCmp := compareRPMDigits(aDigit, bDigit)
-		if digitCmp != 0 {
-			return digitCmp
+		// One string is exhausted: the one with segments remaining is newer
+		if i >= len(a) || j >= len(b) {
+			break
+		}
+
+		// Extract one segment of the same kind (digits or letters) from both strings
+		iStart, jStart := i, j
+		numeric := unicode.IsDigit(rune(a[i]))
+		if numeric {
+			for i < len(a) && unicode.IsDigit(rune(a[i])) {
+				i++
+			}
+			for j < len(b) && unicode.IsDigit(rune(b[j])) {
+				j++
+			}
+		} else {
+			for i < len(a) && unicode.IsLetter(rune(a[i])) {
+				i++
+			}
+			for j < len(b) && unicode.IsLetter(rune(b[j])) {
+				j++
+			}
+		}
+		aSegment, bSegment := a[iStart:i], b[jStart:j]
+
+		// Segments of different kinds: go-univers has always ordered the alphabetic
+		// one as newer (1.2.3-1 < 1.2.3-a); rpm itself decides the other way round
+		if bSegment == "" {
+			if numeric {
+				return -1
+			}
+			return 1
+		}
+
+		segmentCmp := strings.Compare(aSegment, bSegment)
+		if numeric {
+			segmentCmp = compareRPMDigits(aSegment, bSegment)
+		}
+		if segmentCmp != 0 {
+			return segmentCmp
 		}
 	}
 
+	if i < len(a) {
+		return 1
+	}
+	if j < len(b) {
+		return -1
+	}
 	return 0
 }
 
-// isSeparator checks if a character is a separator in RPM versions
+// isSeparator checks if a character only separates segments in RPM versions:
+// anything that is not a letter, a digit, a tilde or a caret
 func isSeparator(r rune) bool {
-	return r == '.' || r == '+' || r == '-' || r == '^'
+	return !unicode.IsLetter(r) && !unicode.IsDigit(r) && r != '~' && r != '^'
 }
 
 // compareRPMNonDigits compares non-digit segments with RPM-specific rules
